@@ -12,12 +12,17 @@ Cfg(r) == [kind |-> r.cfg.kind, ver |-> r.cfg.ver, chart |-> r.cfg.chart, tp |->
            nb |-> [x \in {"s", "c"} |-> r.cfg.nb[x]], ignore |-> r.cfg.ignore]
 Clause(r) ==
   LET c == Cfg(r)  td == TimingDataOf(c)
-      badField == {n \in {"bpms", "stops", "delays", "warps", "offset"} : r.td[n] # td[n][1]} IN
+      \* r.cfg.replica: the chart repeats the song's timing lists ("both"): only OFFSET / DISPLAYBPM tell the sides apart
+      rep == "replica" \in DOMAIN r.cfg /\ r.cfg.replica
+      badField == {n \in {"bpms", "stops", "delays", "warps", "offset"} :
+                     IF rep /\ n # "offset" THEN r.td[n] # "both" ELSE r.td[n] # td[n][1]}
+      dispOK == LET e == DisplayOf(c) IN
+                IF rep /\ Len(e) = 3 /\ e[3] = "bpms" THEN r.disp = <<e[1], "both", "bpms">> ELSE r.disp = e IN
   IF r.st # "ok" THEN "raised"
   ELSE IF badField # {} THEN
        (IF \E n \in badField : r.td[n] \in {"s", "c"} /\ r.td[n] # Source(c) THEN "field-from-the-other-source" ELSE "field-value")
   ELSE IF r.nodisp THEN ""
-  ELSE IF r.disp # DisplayOf(c) THEN "displayed-bpm" ELSE ""
+  ELSE IF ~dispOK THEN "displayed-bpm" ELSE ""
 Init == i = 1
 Next == i <= N /\ PrintT(ToJson([id |-> Recs[i].id, clause |-> Clause(Recs[i])])) /\ i' = i + 1
 Spec == Init /\ [][Next]_i
